@@ -210,9 +210,17 @@ package originium
 //@ define commitOnly(t, cts) = forall(Str(w), (ViewHas[w] && !old(ViewHas)[w]) ==> (wf(w) && ts(w) == cts && has(t.pendingWrites, uk(w)) && w == mk(uk(w), cts)), trig(ViewHas[w]))
 //@ define commitKeeps(t, cts) = forall(Str(w), old(ViewHas)[w] ==> (ViewHas[w] && ((wf(w) && ts(w) == cts && has(t.pendingWrites, uk(w)) && w == mk(uk(w), cts)) || ViewEnt[w] == old(ViewEnt)[w])), trig(ViewHas[w]))
 //
+// C04 (crash atomicity of one transaction): the writes of a commit must reach the log in one durable
+// step. The obligation below says so literally: no second wal append (one per rawset: C14 contract of
+// memtable.set / WAL.Write) happens inside one Commit. It fails on the pinned code, which appends and
+// fsyncs once per key and has no transaction begin/end record (TODO in txn.go): known finding D13.
+//@ ghost CommitWrites Int
 //@ func (*originium.Txn).Commit -> err
 //@ serves wait:mark
-//@ props C07 C08 C06
+//@ props C07 C08 C06 C04
+//@ after_call (*originium.oracle).newCommitTs#0: ghost CommitWrites = 0
+//@ before_call (*originium.DB).rawset#0: assert@C04 CommitWrites == 0
+//@ after_call (*originium.DB).rawset#0: ghost CommitWrites = CommitWrites + 1
 //@ requires txnWf(t) && writesInv(t) && orcInv(t.db.oracle) && histInv(t.db.oracle)
 //@ requires t.readTs < t.db.oracle.nextTs && t.db.oracle.nextTs < 9223372036854775807
 //@ requires !t.discarded ==> (!t.doneRead && WmOpen[ref(t.db.oracle.readMark)][t.readTs] > 0)
@@ -510,6 +518,56 @@ package originium
 // and fsynced before the first input file is removed. Thin contracts: only the assertions below and
 // the preconditions of the os calls are claimed for these two functions; the functional part of
 // their bodies (which tables are selected, what the merged table contains) is not under contract.
+// flushToL0 returns nil only when the table file has been created, completely written and fsynced;
+// flushImmutable deletes the wal of the flushed memtable only after that; memtable.set returns only
+// after the record is appended to the wal and the wal is fsynced; memtable.recover deletes an old wal
+// only after every entry read from it has been appended to the new wal and fsynced. Thin contracts:
+// only these ordering clauses and the preconditions of the os / wal calls are claimed.
+//@ ghost FlushOut Str
+//@ ghost FlushBytes Str
+//@ ghost RecN Int
+//@ func (*originium.levelManager).flushToL0 -> err
+//@ props C14 C03
+//@ thin ^post|^frame|^pre\.os\.|^pre\..*os\.File
+//@ assigns everything_except wal.WAL originium.memtable.
+//@ ensures forall(Int(x), x < old(alloc) ==> (FdOpen[x] == old(FdOpen)[x] && FdPath[x] == old(FdPath)[x]), trig(FdOpen[x]), trig(FdPath[x]))
+//@ ensures err == nil ==> (DskEx[FlushOut] && DskSync[FlushOut] == len(DskData[FlushOut]) && DskData[FlushOut] == FlushBytes)
+//@ before_call (*os.File).Write#0: ghost FlushBytes = string(tableBytes)
+//@ after_call os.OpenFile#0: ghost FlushOut = FdPath[ref(result0)]
+//
+//@ func (*originium.DB).flushImmutable
+//@ props C14 C03
+//@ requires imt != nil && imt.wal != nil && walOK(imt.wal) && db.manager != nil
+//@ thin ^assert|^pre\..*wal
+//@ assigns everything
+//@ before_call (*wal.WAL).Delete#0: assert DskEx[FlushOut] && DskSync[FlushOut] == len(DskData[FlushOut]) && DskData[FlushOut] == FlushBytes
+//
+//@ func (*originium.memtable).all -> r
+//@ props C14 C03
+//@ requires mt != nil
+//@ thin ^frame
+//@ assigns SLSrc, SLIdx
+//
+//@ func (*originium.memtable).set
+//@ props C14 C03 C04
+//@ requires mt != nil && mt.wal != nil && walOK(mt.wal)
+//@ thin ^post|^pre\..*wal
+//@ assigns everything
+//@ ensures DskSync[mt.wal.path] == len(DskData[mt.wal.path]) && DskData[mt.wal.path] == old(DskData[mt.wal.path]) + WalRec
+//
+//@ func (*originium.memtable).recover -> r
+//@ props C14 C03
+//@ requires mt != nil && mt.wal != nil && walOK(mt.wal)
+//@ thin ^assert|^loop1|^pre\..*wal\.WAL_?\)?\.Write|^pre\..*Delete
+//@ assigns everything
+//@ after_call (*wal.WAL).Read#0: ghost RecN = 0
+//@ after_call (*wal.WAL).Write#0: ghost RecN = RecN + 1
+//@ before_call (*wal.WAL).Delete#0: assert RecN == len(entries) && (RecN > 0 ==> DskSync[mt.wal.path] == len(DskData[mt.wal.path]))
+//@ loop 1:
+//@   invariant mt != nil && mt.wal != nil && walOK(mt.wal)
+//@ loop 2:
+//@   invariant mt != nil && mt.wal != nil && walOK(mt.wal) && l != nil && RecN == rangeindex + 1 && (RecN > 0 ==> DskSync[mt.wal.path] == len(DskData[mt.wal.path]))
+//
 //@ func (*originium.levelManager).fileName -> r
 //@ trusted path.Join/fmt.Sprintf of the directory and "<level>-<idx>.db": no effect on the heap; the result is left unconstrained
 //@ assigns nothing
